@@ -225,6 +225,7 @@ type callInfo struct {
 	hbView  *core.RegionInfo // != nil: Dispatch(hbView, "heartbeat") was the call
 	push    bool             // PushOperators: several dispatches inside one call
 	pair    bool             // two concurrent Dispatch calls for region g
+	samples *statusLog       // statuses sampled by the actors and an observer while the call was running
 	holder  bool             // ... queued behind a third call (for another region) that held the controller lock
 	removed *opTrack         // RemoveOperator(removed) returned true
 	wall    time.Duration
@@ -317,7 +318,14 @@ func (w *world) observe(ci *callInfo) {
 	// --- commands sent during the call: they stay in the stream until the store side reads them
 	w.noteSent(ci, cur, prev)
 
-	// --- statuses
+	// --- statuses (first what was sampled while the call was running, if anything)
+	if ci.samples != nil {
+		for _, t := range w.live {
+			if len(ci.samples.seen[t]) > 0 {
+				w.judgeSamples(ci.samples, t, ci.name)
+			}
+		}
+	}
 	for _, t := range w.live {
 		s := t.op.Status()
 		if s != t.last {
